@@ -148,10 +148,11 @@ def ob_kernel_rate(ctx):
 
 
 # ---------------------------------------------------------------------- release scenarios
-def release_world(ctx, k, released_before=0, other=True, cap=None, real_kernel=False, pending=False):
+def release_world(ctx, k, released_before=0, other=True, cap=None, real_kernel=False, pending=False, immature=False):
     W = HubWorld(ctx, n_validators=1, n_delegations=1)
     I = W.I
     I.contracts_on = {'SignedInt::from_subtraction', 'Uint256*Decimal256'} if (MERGE_RATE or real_kernel) else set(CONTRACTS)
+    I.trace_calls = {'calculate_new_withdraw_rate'}
     if MERGE_RATE:
         I.auto_merge = {'calculate_new_withdraw_rate'}
     user = I.S('user_a')
@@ -184,7 +185,17 @@ def release_world(ctx, k, released_before=0, other=True, cap=None, real_kernel=F
         st.add(W.hub_balance <= cap)
         for h in W.hs + W.old:
             st.add(h['bsei'] <= cap, h['stsei'] <= cap)
-    st.add(W.batch_id == W.last_processed + k + 1)
+    W.im = None
+    if immature:
+        # an undelegated batch that has not matured yet, with a claim of the caller (its key may sort before the matured ones)
+        h = W.add_history('im', released=False)
+        st.add(h['id'] == W.last_processed + k + 1, h['time'] + W.unbonding > W.now, h['time'] <= W.now)
+        st.add(h['bsei_wr'] <= RMAX, h['stsei_wr'] <= RMAX)
+        for g in W.hs:
+            st.add(g['time'] <= h['time'])
+        h['w_c'] = W.add_wait('imc', user, h['id'])
+        W.im = h
+    st.add(W.batch_id == W.last_processed + k + (2 if immature else 1))
     st.add(W.hub_balance >= W.prev_hub_balance)
     st.add(W.unbonding <= W.now)
     W.pending = None
@@ -211,9 +222,9 @@ def edge_free(W, I, st, arrived, expected_b, expected_s, k):
     return z3.And(z3.Or(S_b <= 0, k * S_b < E), z3.Or(S_s <= 0, k * S_s < E))
 
 
-def ob_release(k, released_before, cap=None, light=False, real_kernel=False, pending=False):
+def ob_release(k, released_before, cap=None, light=False, real_kernel=False, pending=False, immature=False, only=None):
     def ob(ctx):
-        W = release_world(ctx, k, released_before, cap=cap, real_kernel=real_kernel, pending=pending)
+        W = release_world(ctx, k, released_before, cap=cap, real_kernel=real_kernel, pending=pending, immature=immature)
         I = W.I
         st0 = W.st
         # ghost: RC = still unpaid claims on already released batches of everybody (caller's part explicit)
@@ -230,7 +241,7 @@ def ob_release(k, released_before, cap=None, light=False, real_kernel=False, pen
         nok = 0
         for st, res in W.execute(msg, W.user):
             if isinstance(res, Panic):
-                if not light:
+                if not light and only is None:
                     ctx.infeasible(st, 'WithdrawUnbonded does not panic (E1, H5)', 'release:panic', W.mv)
                 continue
             post_h = {}
@@ -253,7 +264,7 @@ def ob_release(k, released_before, cap=None, light=False, real_kernel=False, pen
                 new_s = new_s + fl(I, st, h['stsei'], rs2)
                 pay_c = pay_c + fl(I, st, h['w_c']['stsei'], rs2) + fl(I, st, h['w_c']['bsei'], rb2)
             if not is_ok(res):
-                if light:
+                if light or only is not None:
                     continue
                 # the only admissible failure: nothing (>= 1 unit) to withdraw
                 ctx.require(st, pay_c < 1, 'a claimant whose matured claims are worth at least one unit is paid (withdraw never fails for funds)',
@@ -282,17 +293,48 @@ def ob_release(k, released_before, cap=None, light=False, real_kernel=False, pen
                 (e.post['last_processed'] == W.last_processed + k, 'last processed batch advances over the released ones', 'release:last'),
                 (len(e.bank) == 1 and len(e.msgs) == 1, 'exactly one bank transfer to the claimant', 'release:msg'),
             ]
+            # loss spread per token type: every batch's new rate is computed from its own token side's total and that side's
+            # share of the arrived coins (call-site arguments of the rate kernel; the kernel itself: kernel_new_withdraw_rate)
+            calls = [ev for ev in st.log if ev[0] == 'call' and ev[1] == 'calculate_new_withdraw_rate']
+            # the spec's split of the arrived coins, expressed with the quotients of this path where the operands provably coincide
+            tot_c = expected_s + expected_b
+            s_ratio_c = sdiv(I, st, expected_s * E, tot_c, sem=True)
+            b_ratio_c = z3.If(tot_c > 0, E - s_ratio_c, 0)
+            b_act_c = sdiv(I, st, arrived * b_ratio_c, E, sem=True)
+            S_b_c = expected_b - b_act_c
+            S_s_c = expected_s - (arrived - b_act_c)
+
+            def num(v):
+                while isinstance(v, Agg):
+                    v = v.fields[0]
+                return v
+            for ci, ev in enumerate(calls):
+                a_amount, a_rate, a_total, a_sl = ev[2]
+                mag, neg = num(a_sl.fields[0]), a_sl.fields[1]
+                signed = z3.If(neg, -mag, mag) if not isinstance(neg, bool) else (-mag if neg else mag)
+                side = 's' if ci % 2 == 0 else 'b'
+                want_total, want_sl = (expected_s, S_s_c) if side == 's' else (expected_b, S_b_c)
+                cl.append((z3.And(num(a_total) == want_total, signed == want_sl),
+                           'the %s side of the batches released together is charged its own share of the loss: total unbonded of that token type and that side\'s part of the arrived coins' % ('stSei' if side == 's' else 'bSei'),
+                           'release:per_token_' + side))
+            cl.append((len(calls) == 2 * k, 'two rate computations per released batch', 'release:per_token_calls'))
             # H5 preserved: unpaid released claims after <= recorded balance after
             others_new = (new_b + new_s) - sum(fl(I, st, h['w_c']['stsei'], h['rs2']) + fl(I, st, h['w_c']['bsei'], h['rb2']) for h in W.hs)
             cl.append((z3.Implies(z3.And(inner_b, inner_s), RC_rest + others_new <= e.post['prev_hub_balance']), 'liquid balance still covers all remaining matured claims (H5 preserved)', 'release:solvent'))
             # the caller's entries on released batches are gone
             left = [w for w in st.stores[HUB].entries if w.fam == ('B', b'v2_wait') and w.present is not False and w.key[0][1] == W.user.id]
-            if W.pending is not None:
-                cl.append((len(left) == 1, 'the claim on the open batch survives the withdrawal', 'release:keeps_pending'))
-                left = [w for w in left if not (w.key[1][1] is W.batch_id or (is_sym(w.key[1][1]) and w.key[1][1].eq(W.batch_id)))]
+            keep_ids = ([W.batch_id] if W.pending is not None else []) + ([W.im['id']] if W.im is not None else [])
+            if keep_ids:
+                cl.append((len(left) == len(keep_ids), 'the claims on the open / not yet matured batches survive the withdrawal', 'release:keeps_pending'))
+                left = [w for w in left if not any(w.key[1][1] is b_ or (is_sym(w.key[1][1]) and w.key[1][1].eq(b_)) for b_ in keep_ids)]
+            if W.im is not None:
+                ime = [c_ for c_ in ents if c_.key[0][1] is W.im['id'] or (is_sym(c_.key[0][1]) and c_.key[0][1].eq(W.im['id']))][-1]
+                cl.append((ime.val.fields[8] == False, 'the batch that has not matured stays unreleased', 'release:immature'))   # noqa
             cl.append((len(left) == 0, 'paid claims are removed (never paid twice)', 'release:removed'))
             if light:
-                cl = [c for c in cl if c[2] in ('release:share', 'release:released', 'release:prev', 'release:last', 'release:msg', 'release:removed', 'release:keeps_pending')]
+                cl = [c for c in cl if c[2] in ('release:share', 'release:released', 'release:prev', 'release:last', 'release:msg', 'release:removed', 'release:keeps_pending', 'release:immature', 'release:per_token_s', 'release:per_token_b', 'release:per_token_calls')]
+            if only is not None:
+                cl = [c for c in cl if c[2] in only]
             ctx.require_all(st, cl, W.mv)
             ctx.witness('release of %d batch(es) with slashing' % k, st, [arrived < expected_b + expected_s], W.mv)
             ctx.witness('release of %d batch(es) without slashing' % k, st, [no_slash, expected_b + expected_s > 0], W.mv)
@@ -427,7 +469,7 @@ def ob_twice(ctx):
 OBLIGATIONS = [('kernel_from_subtraction', ob_kernel_from_subtraction), ('kernel_uint256_mul_decimal256', ob_kernel_mul),
                ('kernel_new_withdraw_rate', ob_kernel_rate),
                ('release_k1', ob_release(1, 0, real_kernel=True)), ('release_k1_old1', ob_release(1, 1, real_kernel=True)),
-               ('release_k1_pending', ob_release(1, 0, real_kernel=True, pending=True)), ('release_k2', ob_release(2, 0, light=True)),
+               ('release_k1_immature', ob_release(1, 0, real_kernel=True, pending=True, immature=True)), ('release_k2', ob_release(2, 0, light=True)),
                ('release_k3', ob_release(3, 0, light=True)), ('order_independence', ob_order_frame), ('paid_once', ob_twice)]
 
 
@@ -552,7 +594,20 @@ def ORACLE(v, scn, out):
         if 'bank' in sm['msg']:
             for c in sm['msg']['bank']['send']['amount']:
                 paid += int(c['amount'])
-    if what == 'conservation' and payable > balance - prev:
+    if what.startswith('per_token'):
+        exp_b = sum(int(pre['hist'][i]['bsei_amount']) * atoms(pre['hist'][i]['bsei_withdraw_rate']) // E for i in released_now)
+        exp_s = sum(int(pre['hist'][i]['stsei_amount']) * atoms(pre['hist'][i]['stsei_withdraw_rate']) // E for i in released_now)
+        arr = balance - prev
+        br = (E - exp_s * E // (exp_s + exp_b)) if exp_s + exp_b > 0 else 0
+        b_act = arr * br // E
+        s_act = arr - b_act
+        nb = sum(int(post['hist'][i]['bsei_amount']) * atoms(post['hist'][i]['bsei_withdraw_rate']) // E for i in released_now)
+        ns = sum(int(post['hist'][i]['stsei_amount']) * atoms(post['hist'][i]['stsei_withdraw_rate']) // E for i in released_now)
+        kk = len(released_now)
+        edge = (exp_b - b_act > 0 and kk * (exp_b - b_act) >= E) or (exp_s - s_act > 0 and kk * (exp_s - s_act) >= E)
+        if not edge and (nb > b_act or b_act - nb > 2 * kk + 2 or ns > s_act or s_act - ns > 2 * kk + 2):
+            bad.append('arrived %d: bSei side owed %d credited %d, stSei side owed %d credited %d' % (arr, b_act, nb, s_act, ns))
+    elif what == 'conservation' and payable > balance - prev:
         bad.append('batches %s released together are payable for %d but only %d arrived' % (released_now, payable, balance - prev))
     elif what == 'dust':
         exp = sum(int(pre['hist'][i]['bsei_amount']) * atoms(pre['hist'][i]['bsei_withdraw_rate']) // E +
@@ -584,20 +639,35 @@ def ORACLE(v, scn, out):
         newprev = int(post['items'][b'\x00\x05state']['prev_hub_balance'])
         if unpaid + int(v['model'].get('unpaid_released_claims_of_others', 0)) > newprev:
             bad.append('remaining matured claims %d exceed the recorded liquid balance %d' % (unpaid, newprev))
-        else:
-            return None
     elif what == 'removed':
         for (a, b), w in post['wait'].items():
             if a == user and b in post['hist'] and post['hist'][b]['released']:
                 bad.append('paid claim on batch %d not removed' % b)
     elif what == 'prev' and int(post['items'][b'\x00\x05state']['prev_hub_balance']) != balance - paid:
         bad.append('prev_hub_balance wrong')
+    elif what == 'immature':
+        unb = int(pre['items'][b'\x00\x0bparameteres']['unbonding_period'])
+        for i, h in pre['hist'].items():
+            if not h['released'] and int(h['time']) + unb > now and post['hist'].get(i, {}).get('released'):
+                bad.append('batch %d released before it matured' % i)
     elif what == 'keeps_pending':
         for k_ in pre['wait']:
             if k_[0] == user and k_ not in post['wait'] and not (k_[1] in post['hist'] and post['hist'][k_[1]]['released']):
                 bad.append('claim on unreleased batch %d deleted' % k_[1])
-    elif what in ('released', 'last', 'msg', 'panic'):
-        return None
+    elif what in ('released', 'last'):
+        group = sorted(ref) if ref else []
+        if what == 'released':
+            for i in group:
+                if not post['hist'][i]['released']:
+                    bad.append('matured batch %d not released' % i)
+        elif group and int(post['items'][b'\x00\x05state']['last_processed_batch']) != group[-1]:
+            bad.append('last_processed_batch %s, last matured batch %d' % (post['items'][b'\x00\x05state']['last_processed_batch'], group[-1]))
+    elif what == 'msg':
+        banks = [sm for sm in res['ok']['messages'] if 'bank' in sm['msg']]
+        if len(res['ok']['messages']) != 1 or len(banks) != 1 or banks[0]['msg']['bank']['send']['to_address'] != user:
+            bad.append('messages: %r' % res['ok']['messages'])
+    elif what == 'panic':
+        return []
     return bad
 
 
